@@ -504,3 +504,84 @@ func (c *Ctx) lastCodeNotRecovery(rule string) {
 		r.Unknown(rule, "-", "PutTOTPLastCode", "-", "no writer of the TOTP last code found (reference: validate, PostConfirm)")
 	}
 }
+
+// slotPairing (C20): a shared component that admits requests through a
+// counting channel (a buffered `chan struct{}` field used as a semaphore)
+// serves independent requests only while every slot taken is given back. On
+// every path from a send into such a field to a return of the function there
+// is a receive from the same field, or the receive is deferred. Today's tree
+// has no such construct (reference: 0 sends on channel fields); the rule is
+// armed for the day one is added.
+func (c *Ctx) slotPairing(rule string) {
+	r := c.R
+	chanField := func(v ssa.Value) string {
+		if u, ok := v.(*ssa.UnOp); ok && u.Op == token.MUL {
+			if fa, ok := u.X.(*ssa.FieldAddr); ok {
+				return FieldOf(fa)
+			}
+		}
+		if f, ok := v.(*ssa.Field); ok {
+			return FieldOf(f)
+		}
+		return ""
+	}
+	n := 0
+	for _, fn := range c.P.Funcs {
+		if strings.HasSuffix(pkgOf(fn), "/mocks") || fn.Blocks == nil {
+			continue
+		}
+		for _, b := range fn.Blocks {
+			for _, in := range b.Instrs {
+				snd, ok := in.(*ssa.Send)
+				if !ok {
+					continue
+				}
+				fld := chanField(snd.Chan)
+				if fld == "" {
+					continue
+				}
+				n++
+				isRecv := func(i ssa.Instruction) bool {
+					if u, ok := i.(*ssa.UnOp); ok && u.Op == token.ARROW && chanField(u.X) == fld {
+						return true
+					}
+					if d, ok := i.(*ssa.Defer); ok {
+						if g := StaticCallee(d); g != nil && g.Blocks != nil {
+							for _, gb := range g.Blocks {
+								for _, gi := range gb.Instrs {
+									if u, ok := gi.(*ssa.UnOp); ok && u.Op == token.ARROW {
+										return true
+									}
+								}
+							}
+						}
+					}
+					return false
+				}
+				// a defer before the send covers every exit
+				deferred := false
+				for _, b2 := range fn.Blocks {
+					for _, i2 := range b2.Instrs {
+						if _, isD := i2.(*ssa.Defer); isD && isRecv(i2) && InstrDominates(i2, snd) {
+							deferred = true
+						}
+					}
+				}
+				q := PathQuery{From: snd, Cut: isRecv, Goal: func(i ssa.Instruction) bool { _, ok := i.(*ssa.Return); return ok }}
+				var p []ssa.Instruction
+				if !deferred {
+					p = q.Find()
+				}
+				if p != nil {
+					r.Bad(rule, FuncName(fn), "slot of "+fld+" given back on every exit", posf(c, snd), "a slot taken from the instance-wide limiter "+fld+" is not released on a path to a return: after as many such exits as there are slots every client's request blocks", c.P.DescribePath(p)...)
+				} else {
+					r.Ok(rule, FuncName(fn), "slot of "+fld+" given back on every exit", posf(c, snd), "every exit releases the slot")
+				}
+			}
+		}
+	}
+	r.Extra["channel_field_sends"] = n
+	if n == 0 {
+		r.Info(rule, "-", "sends on channel fields", "-", "no shared component takes slots from a channel field (reference: 0)")
+	}
+}
